@@ -118,5 +118,85 @@ fn transform_i32_region(value: i32) -> (r: i32)
     r
 }
 
+// The same formula for the 64-bit codec (Int64 columns, SecurityCapabilities); body of core.rs
+// `transform_i64` copied on every run.
+fn transform_i64_region(value: i64) -> (r: i64)
+    ensures (r as u64) as int == zz(value as int),
+{
+// BEGIN EXTRACTED transform_i64
+    let r =
+@@ZZ64@@
+    ;
+// END EXTRACTED
+    assert((((value << 1) ^ (value >> 63)) as u64) == (if value >= 0 { 2 * (value as u64) } else { (!(value as u64)) * 2 + 1 }) as u64) by (bit_vector);
+    assert(value < 0 ==> (!(value as u64)) as int == -(value as int) - 1) by (bit_vector);
+    r
+}
+
+// Decoding direction, stated from the document and not from the encoder: the result is THE number
+// whose documented coding is the stored word (zz is injective, lemma_zz_inj), for every stored word.
+// Bodies of core.rs `untransform_i32` / `untransform_i64` copied on every run. The first assert only
+// establishes that the unary minus in the body cannot overflow.
+fn untransform_i32_region(value: i32) -> (r: i32)
+    ensures (value as u32) as int == zz(r as int),
+{
+    assert((value & 1) == 0 || (value & 1) == 1) by (bit_vector);
+// BEGIN EXTRACTED untransform_i32
+    let r =
+@@UNZZ32@@
+    ;
+// END EXTRACTED
+    assert({
+        let r = (((value as u32) >> 1) as i32) ^ ((0i32 - (value & 1)) as i32);
+        (value as u32) == (if r >= 0 { 2 * (r as u32) } else { (!(r as u32)) * 2 + 1 }) as u32
+          && (r >= 0 ==> (r as u32) < 0x8000_0000u32) && (r < 0 ==> (!(r as u32)) < 0x8000_0000u32)
+    }) by (bit_vector);
+    assert(r < 0 ==> (!(r as u32)) as int == -(r as int) - 1) by (bit_vector);
+    r
+}
+
+fn untransform_i64_region(value: i64) -> (r: i64)
+    ensures (value as u64) as int == zz(r as int),
+{
+    assert((value & 1) == 0 || (value & 1) == 1) by (bit_vector);
+// BEGIN EXTRACTED untransform_i64
+    let r =
+@@UNZZ64@@
+    ;
+// END EXTRACTED
+    assert({
+        let r = (((value as u64) >> 1) as i64) ^ ((0i64 - (value & 1)) as i64);
+        (value as u64) == (if r >= 0 { 2 * (r as u64) } else { (!(r as u64)) * 2 + 1 }) as u64
+          && (r >= 0 ==> (r as u64) < 0x8000_0000_0000_0000u64) && (r < 0 ==> (!(r as u64)) < 0x8000_0000_0000_0000u64)
+    }) by (bit_vector);
+    assert(r < 0 ==> (!(r as u64)) as int == -(r as int) - 1) by (bit_vector);
+    r
+}
+
+// Round trip from the contracts alone: the document's coding is injective, so the decoder's result
+// for a word produced by the encoder is the encoder's argument.
+proof fn lemma_zz_inj(a: int, b: int)
+    requires zz(a) == zz(b),
+    ensures a == b,
+{}
+
+fn zz32_roundtrip(x: i32) -> (y: i32)
+    ensures y == x,
+{
+    let w = transform_i32_region(x);
+    let y = untransform_i32_region(w);
+    proof { lemma_zz_inj(x as int, y as int); }
+    y
+}
+
+fn zz64_roundtrip(x: i64) -> (y: i64)
+    ensures y == x,
+{
+    let w = transform_i64_region(x);
+    let y = untransform_i64_region(w);
+    proof { lemma_zz_inj(x as int, y as int); }
+    y
+}
+
 } // verus!
 fn main() {}
